@@ -214,9 +214,10 @@ def run_property(prop, tier, seed, jobs, write_baseline, t_start):
     replay_dir = os.path.join(ROOT, "replays", prop)
 
     def fallback_unroll(qual, only=None):
-        bound = P.get("fallback_bound", {}).get(qual, 3 if tier == "quick" else 4)
+        bound = P.get("fallback_bound", {}).get(qual, 2 if tier == "quick" else 3)
+        bound = int(os.environ.get("VERIF_FALLBACK_BOUND", bound))
         u = {"kind": "unroll", "qual": qual, "bound": bound, "nrefs": P.get("fallback_nrefs", 4),
-             "nstrs": P.get("fallback_nstrs", 4), "timeout_ms": 60000, "second_solver": False}
+             "nstrs": P.get("fallback_nstrs", 8), "timeout_ms": 45000, "second_solver": False}
         # always in a fresh process: one z3 context per engine
         with mp.Pool(1, maxtasksperchild=1) as fpool:
             return fpool.apply(_work, (u,))
